@@ -257,6 +257,58 @@ theorem concurrent_log_roundtrip (ms : List (List Frame)) (steps : List Step) (s
   rw [hout]
   exact this
 
+/-- Any number of messages logged under allocated IDs (`marbl.Modifier`: the IDs of the proxy's contexts): IF the IDs
+are pairwise distinct per type in the 8 bytes a frame keeps, THEN in every run of the stream's goroutines decoding per
+(ID, type) recovers EVERY message: its headers once, data indices 0,1,2,… once, its body, terminal flags, wrapper
+returns. The hypothesis is about the allocator (`context.go`), outside this model: the harness checks it on the
+real one (`runpx`: real proxy, real `withSession`; oracle `id-shared`). -/
+theorem distinct_ids_every_message_recovered (msgs : List LoggedMsg) (steps : List Step) (s' : Sys Bytes)
+    (hrun : (Sys.init ((msgs.map LoggedMsg.frames).map (senderChunks Generated.Marbl.framecSendsWhole))).exec steps = some s')
+    (hq : s'.quiescent = true)
+    (hdist : ∀ (i j : Nat) (mi mj : LoggedMsg), i ≠ j → msgs[i]? = some mi → msgs[j]? = some mj → mi.key ≠ mj.key)
+    (hid : ∀ m ∈ msgs, 8 ≤ m.id.length)
+    (hh : ∀ m ∈ msgs, ∀ kv ∈ m.hdrs, kv.1.length < two32 ∧ kv.2.length < two32)
+    (hd : ∀ m ∈ msgs, ∀ r ∈ m.reads, r.data.length < two32)
+    (hr : ∀ m ∈ msgs, m.reads.length ≤ two32)
+    (i : Nat) (m : LoggedMsg) (hm : msgs[i]? = some m) :
+    let got := (readAll s'.out.flatten).1.filter (fun f => f.key == (m.id.take 8, m.mt))
+    let hs := got.filter (fun f => !f.isData)
+    let ds := got.filter Frame.isData
+    got = hs ++ ds ∧
+    hs.map Frame.nameValue = m.hdrs ∧
+    ds.map Frame.index = List.range m.reads.length ∧
+    (ds.map Frame.payload).flatten = (m.reads.map ReadRes.data).flatten ∧
+    ds.map Frame.terminal = m.reads.map (fun r => r.err == .eof) ∧
+    (bodyRun m.mt (m.id.take 8) 0 m.reads).1 = m.reads := by
+  have hmem : m ∈ msgs := List.mem_of_getElem? hm
+  refine concurrent_log_roundtrip (msgs.map LoggedMsg.frames) steps s' hrun hq ?_ i m.mt m.id m.hdrs m.reads ?_ ?_ (hr m hmem)
+  · intro fl hfl f hf
+    obtain ⟨m', hm', rfl⟩ := List.mem_map.mp hfl
+    exact messageFrames_valid m'.mt m'.id m'.hdrs m'.reads (hid m' hm') (hh m' hm') (hd m' hm') f hf
+  · rw [List.getElem?_map, hm]; rfl
+  · intro j fl hj hfl f hf
+    rw [List.getElem?_map] at hfl
+    cases hmj : msgs[j]? with
+    | none => rw [hmj] at hfl; cases hfl
+    | some mj =>
+      rw [hmj] at hfl
+      simp only [Option.map_some, Option.some.injEq] at hfl
+      subst hfl
+      rw [messageFrames_key mj.mt mj.id mj.hdrs mj.reads f hf]
+      exact hdist j i mj m hj hmj hm
+
+/-- What happens without the hypothesis (concrete witness, `decide`): two requests whose context IDs share their first
+8 bytes (`session prefix + random suffix`) are ONE message for a reader: `:path` twice, indices 0, 0, both bodies. -/
+theorem shared_id_prefix_merges_messages :
+    let m1 : LoggedMsg := ⟨1, strBytes "sessAAAA1111", [(strBytes ":path", strBytes "/a")], [⟨strBytes "one", .eof⟩]⟩
+    let m2 : LoggedMsg := ⟨1, strBytes "sessAAAA2222", [(strBytes ":path", strBytes "/b")], [⟨strBytes "two", .eof⟩]⟩
+    let got := (readAll (encodeAll (m1.frames ++ m2.frames))).1.filter (fun f => f.key == m1.key)
+    m1.id ≠ m2.id ∧ m1.key = m2.key ∧
+    (got.filter (fun f => !f.isData)).map Frame.nameValue = [(strBytes ":path", strBytes "/a"), (strBytes ":path", strBytes "/b")] ∧
+    (got.filter Frame.isData).map Frame.index = [0, 0] ∧
+    ((got.filter Frame.isData).map Frame.payload).flatten = strBytes "onetwo" := by
+  set_option maxRecDepth 8192 in decide
+
 /-- A request whose body is `http.NoBody` is logged as an empty body read once to end-of-file
 (one data frame: index 0, terminal, no bytes), whatever the consumer does with `http.NoBody`
 afterwards; so `logged_message_roundtrip` applies to it with `reads := noBodyReads`. -/
